@@ -16,7 +16,8 @@ CONSTANTS
   Vias,         \* final verification entry points
   EmitOn,       \* print behaviours
   OnlyMentioned, \* restrict top-level calls to methods some clause mentions (cuts uninteresting histories)
-  StopAfterDeviation \* no further calls once an ordered call deviated (C04 is silent about what follows)
+  StopAfterDeviation, \* no further calls once an ordered call deviated (C04 is silent about what follows)
+  PermOn        \* also choose an admissible reordering of the clauses (C18); the harness lists them in that order
 
 Seg(k, q, n) == [k |-> k, q |-> q, n |-> n]
 Pat(pred, chain) == [pred |-> pred, chain |-> chain]
@@ -26,7 +27,11 @@ N0(m, a) == [m |-> m, a |-> a, sc |-> <<>>, up |-> FALSE]
 
 SeqsUpTo(S, n) == UNION { [1..k -> S] : k \in 0..n }
 
-CfgFam == [strict : StrictFam, leaves : SeqsUpTo(LeafFam, MaxLeaves)]
+Identity(n) == [i \in 1..n |-> i]
+PermsFor(l) == IF PermOn THEN { p \in Perms(Len(l)) : Admissible(l, p) } ELSE { Identity(Len(l)) }
+CfgFam == UNION { { [strict |-> s, leaves |-> l, perm |-> p] : p \in PermsFor(l) } : s \in StrictFam, l \in SeqsUpTo(LeafFam, MaxLeaves) }
+\* C18 (model side): assembling any admissible reordering gives the same observable table
+PermInvariantCfg == (PermOn /\ hist = <<>>) => PermInvariant(cfg.leaves)
 NodeFam == [m : Method, a : Arg, sc : ScriptFam, up : UpFam]
 
 MCInit == \E c \in CfgFam : InitWith(c)
@@ -52,7 +57,7 @@ ValReport == { [id |-> ValId(tab[x[1][1]].pats[x[1][2]], x[2]),
                 single |-> RetOwned[x[1][1]] /\ SingleUse(tab[x[1][1]].pats[x[1][2]].form, x[2], tab[x[1][1]].pats[x[1][2]].chain[x[2]]),
                 delivered |-> Cardinality({ j \in 1..Len(AllDisp) : AllDisp[j].m = x[1][1] /\ AllDisp[j].sel = x[1][2]
                                               /\ AllDisp[j].seg = x[2] /\ AllDisp[j].d.k = "ret" })] : x \in ValSegs }
-Beh == [strict |-> cfg.strict, leaves |-> cfg.leaves, new |-> newErr,
+Beh == [strict |-> cfg.strict, leaves |-> cfg.leaves, perm |-> cfg.perm, new |-> newErr,
         steps |-> [j \in 1..Len(hist) |-> StepOut(hist[j])],
         vals |-> IF phase = "done" THEN ValReport ELSE {}]
 Emit == (EmitOn /\ phase \in {"done", "newerr"}) => PrintT(<<"REPLAY", ToJson(Beh)>>)
@@ -159,6 +164,13 @@ C16LeavesQ == { Leaf1(m, f, {0}, <<Seg("unmock", "none", 0)>>) : m \in {"r1", "d
              \cup { Leaf1("r1", "each", Arg, <<Seg("unmock", "n", 1)>>), Leaf1("d1", "next", Arg, <<Seg("unmock", "n", 2)>>) }
              \cup { Leaf1("r0", "each", Arg, Open), Leaf1("r0", "next", Arg, <<V("n", 2)>>) }
              \cup { Leaf1("r0", "each", Arg, <<Seg("unmock", "none", 0)>>), Leaf1("r1", "each", {1}, <<Seg("answer", "none", 0)>>) }
+\* ---------------- C18: layout independence ----------------
+C18Leaves == { Leaf1(m, f, p, c) : m \in {"r0", "r1"}, f \in {"each", "next"}, p \in {{0}, Arg}, c \in {Open, <<V("n", 2)>>} }
+             \cup { Leaf1("r2", "each", Arg, <<V("n", 1)>>), Leaf1("r2", "some", {1}, Open) }
+             \cup { Leaf1(m, f, p, c) : m \in {"g8", "g16"}, f \in {"each", "next"}, p \in {{0}}, c \in {Open, <<V("n", 1)>>} }
+C18LeavesQ == { Leaf1("r0", "each", {0}, Open), Leaf1("r0", "each", Arg, <<V("n", 2)>>), Leaf1("r1", "next", Arg, Open),
+                Leaf1("r1", "next", {0}, <<V("n", 2)>>), Leaf1("r2", "each", Arg, <<V("n", 1)>>),
+                Leaf1("g8", "each", {0}, Open), Leaf1("g16", "each", {0}, <<V("n", 1)>>), Leaf1("g8", "next", {0}, Open) }
 cScriptsQ == Scripts({"r0"}, 2) \cup Scripts({"r1"}, 1)
 cScriptsR1 == Scripts({"r0", "r1"}, 1)
 cScripts1 == Scripts(Method \ {"t0", "b0"}, 1)
